@@ -137,6 +137,16 @@ CLAIMED.update({
              design_ref="DESIGN.md sec. 3 C51"),
 })
 
+CLAIMED.update({
+ "C53": dict(text="All bounded histories (<=4-6 operations, <=3-4 live objects) over the real SerializableLock: create with fresh/explicit tokens, pickle round trips "
+                  "(two protocols), deepcopy, non-blocking acquire, release, dropping a whole identity class followed by garbage collection; a reference model of "
+                  "identity classes and held-bits is compared after every step for EVERY live object: acquire succeeds iff the class is free, locked() is the "
+                  "class's held-bit, separately created locks never interfere. Operation choices carry no arithmetic: solver-enumerated, decision tree exhausted.",
+             note=_ENUM_NOTE + "Exclusion is observed through non-blocking acquires in one thread (threading.Lock is not re-entrant); real multi-thread blocking and "
+                  "other processes are outside.", design_ref="DESIGN.md sec. 3 C53 (added while building)",
+             technique="bounded symbolic execution of the real SerializableLock over solver-enumerated operation histories (symx + z3), per-path native replay"),
+})
+
 NOT_APPLICABLE = {}
 
 _NA_DESIGN = {
@@ -164,7 +174,6 @@ _NA_DESIGN = {
  "C46": "window/cumulative ops: pandas rolling kernels; partition-boundary arithmetic is inside pandas-backed overlap code",
  "C47": "file round trips: pandas CSV parser and pyarrow (absent in the sandbox); block splitting is decided under C50",
  "C49": "bag sampling: random/math.log floating-point reservoir weights",
- "C53": "SerializableLock: pickling and real thread contention; no arithmetic or ordering kernel",
 }
 import json as _json, os as _os
 for _l in open(_os.path.join(_os.path.dirname(_os.path.dirname(_os.path.abspath(__file__))), "properties.jsonl")):
